@@ -21,7 +21,15 @@ def extract(run):
 def explore(run, driver, budget):
     from harness.props import c15
 
-    K.explore(run, driver, budget, PROP, RULE, pi_cycle=("nonparametric", "gaussian", "nonparametric", "gaussian", "bootstrap"))
+    from harness import apicheck as A
+
+    # dedicated cases: nothing left to predict (every baseline unit reported or excluded) with unexpected / excluded units that
+    # carry votes - every aggregate must then be zero-width at its counted votes, under each estimator
+    done = ["reporting"] * 8 + ["blocklisted", "zero-baseline", "strange-low", "strange-high"]
+    corpus = [(lambda rng, pi=pi, d=d: A.gen_case(rng, pi_method=pi, roles=done, all_reported=True, district=d))
+              for pi in ("gaussian", "nonparametric", "bootstrap") for d in (False, True)]
+    K.explore(run, driver, budget, PROP, RULE, pi_cycle=("nonparametric", "gaussian", "nonparametric", "gaussian", "bootstrap"),
+              corpus=corpus)
     # gaussian aggregate floor on structures with fallback groups sorted before own-model groups and high partial counts
     c15.floor_stage(run, {"quick": 60, "thorough": 3000, "search": 400}[budget], PROP)
 
